@@ -416,6 +416,65 @@ class Report:
         self.assumptions.append(text)
 
 
+_SUBREPORTS = {}
+
+
+def import_rules(rep, origin, rules=None, reason="", keys=None):
+    """Run the rules of property `origin` and adopt some of them into `rep` as rules `<origin>.<id>`.
+
+    A property P imports a rule of Q when the rule is also a necessary condition of P (P's guarantee is built on the mechanism Q's rule decides:
+    e.g. the schema of a relation (C07) contains what execution produces only if range propagation (C06) is sound).  The imported rule is the same
+    code reading the same tree; its reports appear under P with the rule id `Q.R`, and a finding already recorded for (Q, R, key) is the same
+    finding here.  Imports are not transitive (the origin's own imports are not run).  `rules`: ids to adopt (None: all of the origin's own rules);
+    `keys`: regex restricting the adopted instances/violations to the constructs P depends on."""
+    import importlib
+    import re as _re
+
+    if getattr(rep, "is_sub", False):
+        return
+    ck = (origin, os.environ.get("QV_FEATURES"))
+    sub = _SUBREPORTS.get(ck)
+    if sub is None:
+        sub = Report(origin, rep.tier)
+        sub.is_sub = True
+        mod = importlib.import_module("qv.%s" % origin.lower())
+        try:
+            mod.run(sub)
+        except Anchor as e:
+            msg = str(e)
+            sub.violation("A0", "anchor:" + _re.sub(r"[^A-Za-z0-9_:<>.,]+", "_", msg)[:80], "UNDECIDED: anchor lost: %s" % msg, "")
+        _SUBREPORTS[ck] = sub
+    for e in sub.errors:
+        rep.error("imported rules of %s: %s" % (origin, e))
+    kre = _re.compile(keys) if keys else None
+    adopted = []
+    for rid, r in sub.rules.items():
+        if "." in rid:
+            continue
+        if rules is not None and rid not in rules and rid != "A0":
+            continue
+        nid = "%s.%s" % (origin, rid)
+        nt = set(k for k in r["nontrivial"] if kre is None or kre.search(k))
+        rep.rules[nid] = {
+            "id": nid,
+            "text": "[%s/%s%s] %s" % (origin, rid, (", restricted to keys matching /%s/" % keys) if keys else "", r["text"]),
+            "floor": r["floor"] if kre is None else 0,
+            "necessary_because": ("for this property: %s.  In %s: %s" % (reason, origin, r["necessary_because"])) if reason else r["necessary_because"],
+            "instances": r["instances"] if kre is None else len(nt),
+            "nontrivial": nt,
+            "samples": list(r["samples"]) if kre is None else [],
+            "violations": 0,
+        }
+        adopted.append(rid)
+    for v in sub.violations:
+        if v["rule"] not in adopted or (kre is not None and not kre.search(v["key"])):
+            continue
+        nid = "%s.%s" % (origin, v["rule"])
+        rep.rules[nid]["violations"] += 1
+        rep.violations.append(dict(v, rule=nid, origin=(origin, v["rule"])))
+    rep.extra.setdefault("imported_rules", []).append({"from": origin, "rules": sorted(adopted), "because": reason, "keys": keys})
+
+
 def load_known():
     """known_findings.json (+ per-property fragments under known_findings.d/ while they are being triaged)."""
     import glob
@@ -459,15 +518,19 @@ def finish(rep, level="other", exhaustive=False):
                 "rule %s matched %d instances, below the vacuity threshold %d (60%% of the %d confirmed by hand on the pinned tree): anchors lost?"
                 % (rid, r["instances"], threshold, r["floor"])
             )
-    new, listed = [], []
+    new, listed, listed_elsewhere = [], [], []
     seen = set()
     for v in rep.violations:
         k = (rep.prop, v["rule"], v["key"])
         if k in seen:
             continue
         seen.add(k)
+        if "origin" in v:
+            # an imported rule: the finding recorded for the origin property is the same defect
+            k = (v["origin"][0], v["origin"][1], v["key"])
         if k in kidx and kidx[k].get("msg_sig") in (None, msg_sig(v["msg"])):
-            listed.append((v, kidx[k]))
+            # a finding reported through an imported rule is recorded (and was confirmed by input) under its own property: it is listed there once
+            (listed_elsewhere if "origin" in v else listed).append((v, kidx[k]))
         elif k in kidx:
             # same construct, different failure: a listed finding never masks another violation of the same construct
             new.append(dict(v, key=v["key"] + "@changed", msg=v["msg"] + " [differs from the known finding recorded for this construct]"))
@@ -476,6 +539,8 @@ def finish(rep, level="other", exhaustive=False):
     stale = [f for (k, f) in kidx.items() if k[0] == rep.prop and k not in seen]
     for v, f in listed:
         print("KNOWN-FINDING: property=%s rule=%s key=%s %s" % (rep.prop, v["rule"], v["key"], f.get("what", v["msg"])))
+    for v, f in listed_elsewhere:
+        print("NOTE property=%s adopted rule %s reports a finding recorded under %s (rule=%s key=%s): listed and reported there" % (rep.prop, v["rule"], v["origin"][0], v["origin"][1], v["key"]))
     for v in new:
         print("VIOLATION property=%s replay=%s#%s" % (rep.prop, ev_path, v["key"].replace(" ", "_")))
         print("  rule=%s key=%s at %s: %s" % (v["rule"], v["key"], v["where"], v["msg"]))
@@ -514,6 +579,7 @@ def finish(rep, level="other", exhaustive=False):
         ],
         "violations": new,
         "known_findings": [dict(v, what=f.get("what")) for v, f in listed],
+        "findings_of_adopted_rules_listed_under_their_own_property": [{"rule": v["rule"], "key": v["key"], "listed_under": v["origin"][0]} for v, f in listed_elsewhere],
         "errors": rep.errors,
     }
     cov.update(rep.extra)
